@@ -350,6 +350,9 @@ func (p *Parser) parseInjectCall(pkg *packages.Package, kessokuPackageScope *typ
 	}
 
 	build.InjectorName = constant.StringVal(tv.Value)
+	if !token.IsIdentifier(build.InjectorName) {
+		return nil, fmt.Errorf("injector name %q is not a valid Go identifier", build.InjectorName)
+	}
 
 	// Parse provider arguments (starting from index 1)
 	for _, arg := range call.Args[1:] {
